@@ -29,6 +29,7 @@ Variable w : list byte.
 Notation E := (evals G uprop w).
 Notation at_ := (at_ w).
 Hypothesis Hskip : forall emit p l sg, at_ p l -> skips G uprop w NonAtomic emit p sg (SMatch (p + skip_ws l) sg []).
+Local Set Default Proof Using "Hskip".
 
 Definition pres {A : Type} (p : nat) (sg : list str) (tr : A -> list tree) (o : option (A * nat)) : sres :=
   match o with Some (a, n) => SMatch (p + n) sg (tr a) | None => SFail end.
